@@ -315,7 +315,12 @@ def plan(tier):
 
 def main(tier):
     run = Run(PID, tier)
-    mism = validate_translator(run)
+    try:
+        mism = validate_translator(run)
+    except CannotEncode as e:
+        # the current sources use something engine K cannot encode: the K obligations below will say so one by one; whatever other
+        # conditions the check has still run
+        mism = [('translator validation not possible', str(e))]
     if mism:
         run.inconclusive.append({'name': 'translator-validation', 'status': INCONCLUSIVE, 'error': str(mism[:2])[:600]})
     def second_for(p):
